@@ -34,58 +34,91 @@ def _loop_body_is_stateless(loop) -> str:
     return "" if not extra else f"loop body carries state between files: {sorted(extra)}"
 
 
-def _real_skipped(parts, is_test_run):
-    """The filter expression compiled from the current source and evaluated natively."""
-    _, first, _ = _loop()
-    from types import SimpleNamespace
+class _Recorder:
+    """A list stand-in that records under which path condition something is appended to it."""
 
-    code = compile(ast.Expression(first.test), "<get_api filter>", "eval")
-    return bool(eval(code, dict(G.__dict__), {"file_path": SimpleNamespace(parts=tuple(parts)), "is_test_run": is_test_run}))
+    def __init__(self, ev):
+        self.ev, self.guards = ev, []
+        self.append = self._append
+        self._append.__func__._ek_stub = True  # type: ignore[attr-defined]
+
+    def _append(self, _value):
+        self.guards.append(self.ev.g)
+
+    def hit(self):
+        from vlib.ek.bstr import _or
+
+        return _or(*self.guards)
+
+
+def _outcome(loop, parts, flag):
+    """Symbolic outcome of ONE iteration of the collection loop: (added to package_paths, added to walkable_files)."""
+    ev = Ev(node=ast.parse("def f(): pass").body[0], globs=G.get_api.__globals__)
+    pk, wk = _Recorder(ev), _Recorder(ev)
+    path_str = BStr.const("<path>")
+    fp = SymObj(parts=tuple(parts), name=parts[-1], parent=SymObj(**{"__str__": BStr.const("<parent>")}), **{"__str__": path_str})
+    env = {"file_path": fp, "is_test_run": flag, "package_paths": pk, "walkable_files": wk}
+    ev._continue, ev._break = [], []
+    ev.block(loop.body, env, z3.BoolVal(True))
+    return ev, pk.hit(), wk.hit()
+
+
+def _real_outcome(parts, is_test_run):
+    """The loop body of the current source, executed natively for one file."""
+    import pathlib
+
+    loop, _, _ = _loop()
+    mod = ast.Module(body=[ast.For(target=loop.target, iter=ast.Name(id="__files", ctx=ast.Load()), body=loop.body, orelse=[])], type_ignores=[])
+    ast.fix_missing_locations(mod)
+    env = dict(G.__dict__)
+    env.update({"__files": [pathlib.PurePosixPath(*parts)], "is_test_run": is_test_run, "package_paths": [], "walkable_files": []})
+    exec(compile(mod, "<get_api loop>", "exec"), env)  # noqa: S102
+    return bool(env["package_paths"]), bool(env["walkable_files"])
 
 
 def directory_filter():
     job = KJob("C15")
     n_parts = 5 if THOROUGH else 4
     cap = 7 if THOROUGH else 6
-    loop, first, second = _loop()
+    loop, _, _ = _loop()
     problem = _loop_body_is_stateless(loop)
     if problem:
         return {"queries": [{"id": "loop_body_stateless", "verdict": "harness_error", "detail": problem, "seconds": 0, "bound": "syntactic"}],
                 "validation": job.validation}
-    parts = [BStr.var(f"part{i}", cap) for i in range(n_parts)]
+    parts = [BStr.var(f"part{i}", cap) for i in range(n_parts - 1)] + [BStr.var("last", 12)]
     flag = z3.Bool("is_test_run")
-    alphabet = [ord(c) for c in "tesdoc_.xy"]
+    alphabet = [ord(c) for c in "tesdoc_.xyinp"]
     wf = [p.wf(alphabet, min_len=1) for p in parts]
-    ev = Ev(node=ast.parse("def f(): pass").body[0], globs=G.get_api.__globals__)
-    skipped = ev.truth(ev.expr(first.test, {"file_path": SymObj(parts=tuple(parts)), "is_test_run": flag}))
+    ev, is_pkg, is_file = _outcome(loop, parts, flag)
+    contributes = z3.Or(is_pkg, is_file)
     in_skip_dir = z3.Or(*[p.eq(BStr.const(d)) for p in parts for d in SKIP_DIRS])
     decode = lambda m: {"parts": [show(m, p) for p in parts], "is_test_run": z3.is_true(m.eval(flag, model_completion=True))}  # noqa: E731
-    job.prove("skipped_iff_flag_off_and_exact_directory_name", wf, skipped == z3.And(z3.Not(flag), in_skip_dir),
-              decode=decode,
-              replay=lambda i: (_real_skipped(i["parts"], i["is_test_run"]) != ((not i["is_test_run"]) and any(p in SKIP_DIRS for p in i["parts"])),
-                                f"real filter gives {_real_skipped(i['parts'], i['is_test_run'])}"),
-              bound=f"paths of {n_parts} parts, each 1..{cap} characters over {{t,e,s,d,o,c,_,.,x,y}} (contains test, tests, docs, "
-                    "testes, test_x, docs_, ...)")
-    job.prove("flag_on_skips_nothing", [*wf, flag], z3.Not(skipped), decode=decode,
-              replay=lambda i: (_real_skipped(i["parts"], True), "skipped although the flag is on"),
-              bound="as above, flag on")
-    # lookalike names are never skipped (a consequence spelt out because it is what users rely on)
+
+    def replay(i):
+        pkg, fil = _real_outcome(i["parts"], i["is_test_run"])
+        skip = (not i["is_test_run"]) and any(p in SKIP_DIRS for p in i["parts"])
+        init = i["parts"][-1] == "__init__.py"
+        bad = (pkg or fil) == skip or (not skip and (pkg != init or fil == init))
+        return bad, f"real loop: package={pkg} file={fil}"
+
+    job.prove("contributes_iff_flag_on_or_no_exact_directory_name", wf,
+              z3.And(contributes == z3.Not(z3.And(z3.Not(flag), in_skip_dir)), z3.Not(ev.raise_guard())), decode=decode, replay=replay,
+              bound=f"paths of {n_parts} parts (directories 1..{cap} chars, file name 1..12 chars) over {{t,e,s,d,o,c,_,.,x,y,i,n,p}} - spells test, "
+                    "tests, docs, __init__.py and their look-alikes (testes, test_x, docs_, x__init__.py)")
+    job.prove("flag_on_every_file_contributes", [*wf, flag], contributes, decode=decode, replay=replay, bound="as above, flag on")
     lookalike = z3.And(*[z3.And(*[z3.Not(p.eq(BStr.const(d))) for d in SKIP_DIRS]) for p in parts])
-    job.prove("lookalike_names_never_skipped", [*wf, lookalike], z3.Not(skipped), decode=decode,
-              replay=lambda i: (_real_skipped(i["parts"], i["is_test_run"]), "skipped although no part is test/tests/docs"),
+    job.prove("lookalike_names_never_skipped", [*wf, lookalike], contributes, decode=decode, replay=replay,
               bound="as above, no part equal to test/tests/docs")
-    # second test: a file is a package entry iff its last part is exactly __init__.py
-    last = BStr.var("last", 12)
-    ev2 = Ev(node=ast.parse("def f(): pass").body[0], globs=G.get_api.__globals__)
-    is_pkg = ev2.truth(ev2.expr(second.test, {"file_path": SymObj(parts=(parts[0], last))}))
-    job.prove("package_entry_iff_init_file", [parts[0].wf(alphabet, min_len=1), last.wf(min_len=1)],
-              z3.And(is_pkg == last.eq(BStr.const("__init__.py")), z3.Not(ev2.raise_guard())),
-              decode=lambda m: {"last": show(m, last)},
-              replay=lambda i: (False, "n/a"), bound="last path part: any ASCII string up to 12 characters")
+    job.prove("package_entry_iff_init_file", wf, z3.And(z3.Implies(contributes, is_pkg == parts[-1].eq(BStr.const("__init__.py"))),
+                                                         z3.Not(z3.And(is_pkg, is_file))), decode=decode, replay=replay,
+              bound="as above: a contributing file is a package entry iff its name is exactly __init__.py, otherwise a walkable file")
     rng = job.rng
-    pool = ["test", "tests", "docs", "testing", "test_x.py", "mytests", "docs_old", "src", "pkg", "a.py", "Test", "tes"]
+    pool = ["test", "tests", "docs", "testing", "test_x.py", "mytests", "docs_old", "src", "pkg", "a.py", "Test", "tes", "__init__.py", "x__init__.py"]
     samples = [([rng.choice(pool) for _ in range(n_parts)], rng.random() < 0.5) for _ in range(150)]
-    job.validate("get_api filter", lambda ps, f: concrete(Ev(node=ast.parse("def f(): pass").body[0], globs=G.get_api.__globals__).truth(
-        Ev(node=ast.parse("def f(): pass").body[0], globs=G.get_api.__globals__).expr(first.test, {"file_path": SymObj(parts=tuple(BStr.const(p) for p in ps)), "is_test_run": f}))),
-        _real_skipped, samples)
+
+    def enc(ps, f):
+        e2, a, b = _outcome(loop, [BStr.const(p) for p in ps], z3.BoolVal(f))
+        return concrete(a), concrete(b)
+
+    job.validate("get_api collection loop", enc, _real_outcome, samples)
     return job.result()
